@@ -1,3 +1,4 @@
+import SamlModel.Lib.Url
 import SamlModel.Props.SsoLemmas
 import SamlModel.Props.C16
 import SamlModel.Props.C03
@@ -173,16 +174,57 @@ theorem C02_logout_target (o : Ora) (i : Logout.In) (action relay : String) (m :
     · cases hx; exact ⟨form, sp, md, dsc, hf, hsp, hm, hdsc, rfl, rfl⟩
   · have := (hd.1 hs).1; cases this
 
-/-- the redirect URL `sendBackResponse` builds: the consumer URL, then "?" — or "&" when the URL already has a
-    query — then the message parameters (hand model of the two fingerprinted lines) -/
-def redirectURL (acs query : String) : String := acs ++ (if Lib.containsAny acs "?" then "&" else "?") ++ query
+/-- the redirect URL `sendBackResponse` builds (Lib.Url.redirectURL: hand model of the fingerprinted lines): the
+    consumer URL up to its fragment, then "?" — or "&" when the URL already has a query — then the message
+    parameters, then the fragment -/
+def redirectURL (acs query : String) : String := String.ofList (Lib.Url.redirectURL acs.toList query.toList)
 
+private theorem mem_takeWhile_sat {α} (p : α → Bool) (l : List α) (x : α) (h : x ∈ l.takeWhile p) : p x = true := by
+  induction l with
+  | nil => simp at h
+  | cons a t ih =>
+    by_cases ha : p a = true
+    · simp only [List.takeWhile_cons, ha, if_true, List.mem_cons] at h
+      rcases h with rfl | h
+      · exact ha
+      · exact ih h
+    · simp [List.takeWhile_cons, ha] at h
+
+private theorem dropWhile_head_unsat {α} (p : α → Bool) (l : List α) (c : α) (cs : List α) (h : l.dropWhile p = c :: cs) : p c = false := by
+  induction l with
+  | nil => simp at h
+  | cons a t ih =>
+    by_cases ha : p a = true
+    · simp only [List.dropWhile_cons, ha, if_true] at h; exact ih h
+    · simp only [List.dropWhile_cons, ha] at h
+      simp at h
+      rw [← h.1]; simpa using ha
+
+/-- the redirect goes to the stored consumer URL: the URL sent is that URL with the message parameters inserted
+    before its fragment (if any), joined with `?` or — when it already has a query — `&` -/
 theorem C02_wire_redirect (acs query : String) :
-    ∃ sep, redirectURL acs query = acs ++ sep ++ query ∧ (sep = "?" ∨ sep = "&") ∧ (sep = "&" ↔ Lib.containsAny acs "?" = true) := by
-  unfold redirectURL
-  by_cases h : Lib.containsAny acs "?" = true
-  · exact ⟨"&", by simp [h], Or.inr rfl, by simp [h]⟩
-  · exact ⟨"?", by simp [h], Or.inl rfl, by simp [h]⟩
+    ∃ target frag sep, (redirectURL acs query).toList = target ++ sep :: query.toList ++ frag ∧ target ++ frag = acs.toList ∧
+      '#' ∉ target ∧ (frag = [] ∨ frag.head? = some '#') ∧
+      (sep = '?' ∨ sep = '&') ∧ (sep = '&' ↔ '?' ∈ target) := by
+  refine ⟨Lib.Url.redirectTarget acs.toList, Lib.Url.redirectFragment acs.toList,
+    (if (Lib.Url.redirectTarget acs.toList).contains '?' then '&' else '?'), ?_, ?_, ?_, ?_, ?_, ?_⟩
+  · simp [redirectURL, Lib.Url.redirectURL]
+  · exact List.takeWhile_append_dropWhile
+  · intro hm
+    have := mem_takeWhile_sat _ _ _ hm
+    simp at this
+  · unfold Lib.Url.redirectFragment
+    cases h : acs.toList.dropWhile (· != '#') with
+    | nil => exact Or.inl rfl
+    | cons c cs =>
+      right
+      have := dropWhile_head_unsat _ _ _ _ h
+      simp at this
+      simp [this]
+  · split <;> simp
+  · by_cases h : (Lib.Url.redirectTarget acs.toList).contains '?' = true
+    · simp only [h, if_true, true_iff]; simpa using h
+    · simp only [h]; simp at h; simp [h]
 
 theorem C02_source_current : Gen.Facts.ssoChain = Expected.ssoChain ∧ Gen.Facts.sloChain = Expected.sloChain ∧
     FactsUtil.sameHashes ["provider.Response.sendBackResponse", "provider.LogoutResponse.sendBackLogoutResponse",
